@@ -426,6 +426,30 @@ def unit_lda(ctx):
     ctx.assume("lemma: an energy density of power 4 integrates (d^3r -> lam^-3 d^3r) to E[n_lam] = lam E[n]; a model reading only power-0 features multiplies it by a scale-invariant factor")
 
 
+def unit_sdmx_integrals(ctx):
+    """SDMXFullPlan's four families of Gaussian matrix elements (_get_int_0 / _d / _1 / _1d): SDMXFullSettings.get_feat_usps declares the SAME power 3 + n for a
+    plain term and its r d/dr variant, so for every n the two variants must have the same homogeneity degree in the exponents (a, b) -> (t a, t b)
+    (prod = a b -> t^2 prod, asum -> t asum): n/2 for the l=0 families (R^(2-n) weight between normalised Gaussians), (n-2)/2 for the l=1 families."""
+    it = ctx.interp
+    pm = it.load_module(PMOD)
+    prod, asum, t = tm.var("prod"), tm.var("asum"), tm.var("tscale")
+    H = [tm.mk_lt(tm.ZERO, prod), tm.mk_lt(tm.ZERO, asum), tm.mk_lt(tm.ZERO, t)]
+    it.hyps = list(H)
+    it.externals["scipy.special.gamma"] = lambda interp, x: tm.mk_fn("gamma", tm.lift(x))
+    for name, deg in (("_get_int_0", lambda n: Q(n, 2)), ("_get_int_d", lambda n: Q(n, 2)), ("_get_int_1", lambda n: Q(n - 2, 2)), ("_get_int_1d", lambda n: Q(n - 2, 2))):
+        f = pm.ns.get(name)
+        fq = [PMOD + ":" + name]
+        for n in (0, 1, 2):
+            try:
+                base = tm.lift(it.call(f, [n, prod, asum], {}))
+                scaled = tm.lift(it.call(f, [n, t * t * prod, t * asum], {}))
+            except (Unsupported, PyRaise) as e:
+                ctx.undecided("%s(n=%d) evaluated" % (name, n), str(e)[:160], fq)
+                continue
+            ctx.equal("%s(n=%d): homogeneous of degree %s in the exponents (the declared power 3 + n is shared by the plain and the r d/dr variant)" % (name, n, deg(n)), H, scaled, t ** deg(n) * base, fq)
+    ctx.canary("sdmx integrals canary", H, tm.lift(it.call(pm.ns["_get_int_1d"], [1, t * t * prod, t * asum], {})), t ** Q(3, 2) * tm.lift(it.call(pm.ns["_get_int_1d"], [1, prod, asum], {})))
+
+
 def units():
     u = []
     for gga in (False, True):
@@ -444,6 +468,7 @@ def units():
             u.append(("nldf/%s/%s" % (level, rm), unit_nldf_single(level, rm)))
     u.append(("other-settings", unit_other_settings))
     u.append(("lda", unit_lda))
+    u.append(("sdmx-integrals", unit_sdmx_integrals))
     # C back end of the version-j kernels: the interpolation coefficients carry the declared power (shared with C02's summaries of cider_coefs.c)
     from contracts import c02
     for order in ("gq", "qg"):
